@@ -28,7 +28,13 @@ func classifyBubblePanic(c *Case, msg string) []Finding {
 		if c.Barrier > 0 {
 			p, what = "C03", fmt.Sprintf("%d simultaneously runnable jobs never ran concurrently (capacity lost)", c.Barrier)
 		}
-		return []Finding{{p, what + ": every goroutine is durably blocked (synctest): " + msg}}
+		fs := []Finding{{p, what + ": every goroutine is durably blocked (synctest): " + msg}}
+		if c.Gate > 0 {
+			// the promptness scenario of C09: the context was cancelled while a
+			// job is parked until Wait has returned
+			fs = append(fs, Finding{"C09", "Wait did not return although its context was cancelled while a job was still running: every goroutine is durably blocked (synctest): " + msg})
+		}
+		return fs
 	}
 	return nil
 }
